@@ -64,7 +64,7 @@ class Contract:
 
     @property
     def qualname(self):
-        return self.target.split("::")[1]
+        return self.target.split("#")[0].split("::")[1]
 
 
 def contract(target, prop, **kw):
